@@ -162,6 +162,33 @@ func op_rangeptrarrayval(st string) { var p *[3]int; if st == "valid" { p = &[3]
 //go:noinline
 func op_assertemptyiface(st string) { var s shaper; if st == "match" { s = sq{2} }; v := s.(any); if v != nil { sink = 2 } else { sink = 3 } }
 //go:noinline
+func edge8(st string, n int) uint8 { if st == "len" { return uint8(n) }; return uint8(n - 1) }
+//go:noinline
+func edge16(st string, n int) uint16 { if st == "len" { return uint16(n) }; return uint16(n - 1) }
+//go:noinline
+func edge32(st string) uint32 { if st == "len" { return 1<<32 - 1 }; return 0 }
+var edgeA8 [255]byte
+var edgeA16 [65535]byte
+var edgeF8 [256]byte
+var edgeF16 [65536]byte
+var edgeSmall [8]byte
+//go:noinline
+func op_edgearr8(st string) { a := edgeA8; a[254] = 9; i := edge8(st, 255); sink = int(a[i]) }
+//go:noinline
+func op_edgeptr8(st string) { p := &edgeA8; p[254] = 9; i := edge8(st, 255); sink = int(p[i]) }
+//go:noinline
+func op_edgestore8(st string) { var a [255]byte; var guard [8]byte; i := edge8(st, 255); a[i] = 7; sink = int(a[254]) + int(guard[0]) }
+//go:noinline
+func op_edgearr16(st string) { a := &edgeA16; a[65534] = 9; b := *a; i := edge16(st, 65535); sink = int(b[i]) }
+//go:noinline
+func op_edgeptr16(st string) { p := &edgeA16; i := edge16(st, 65535); sink = int(p[i]) }
+//go:noinline
+func op_edgeptr32(st string) { p := (*[1<<32 - 1]byte)(unsafe.Pointer(&edgeSmall)); i := edge32(st); sink = int(p[i]) }
+//go:noinline
+func op_edgefull8(st string) { p := &edgeF8; p[255] = 3; i := edge8(st, 256); sink = int(p[i]) }
+//go:noinline
+func op_edgefull16(st string) { p := &edgeF16; p[65535] = 3; i := edge16(st, 65536); sink = int(p[i]) }
+//go:noinline
 func op_methodptr(st string) { var p *smallS; if st == "valid" { p = &smallS{1, 2} }; sink = p.get() }
 //go:noinline
 func op_callfunc(st string) { var f func() int; if st == "valid" { f = func() int { return 1 } }; sink = f() }
@@ -219,6 +246,8 @@ var ops = map[string]func(string){
 	"deref": op_deref, "fieldsmall": op_fieldsmall, "fieldlarge": op_fieldlarge, "ptrarrayindex": op_ptrarrayindex,
 	"derefdiscard": op_derefdiscard, "derefdiscardstruct": op_derefdiscardstruct, "derefdiscardarray": op_derefdiscardarray,
 	"rangeptrarraykey": op_rangeptrarraykey, "rangeptrarrayval": op_rangeptrarrayval, "assertemptyiface": op_assertemptyiface,
+	"edgearr8": op_edgearr8, "edgeptr8": op_edgeptr8, "edgestore8": op_edgestore8, "edgearr16": op_edgearr16, "edgeptr16": op_edgeptr16,
+	"edgeptr32": op_edgeptr32, "edgefull8": op_edgefull8, "edgefull16": op_edgefull16,
 	"ptrarraylen": op_ptrarraylen, "methodptr": op_methodptr, "callfunc": op_callfunc, "ifacemethod": op_ifacemethod,
 	"assertconcrete": op_assertconcrete, "assertiface": op_assertiface, "assertcomma": op_assertcomma,
 	"divint": op_divint, "modint": op_modint, "divint8": op_divint8, "divuint": op_divuint, "divconstzerovar": op_divconstzerovar,
@@ -282,7 +311,7 @@ func runop(op, st string) (kind string, after bool) {
 def gen_program():
     bf, btable = gen_bounds_funcs()
     lf, ltable = gen_literal_funcs()
-    src = ["package main", "", 'import (', '\t"bufio"', '\t"os"', ')', ""]
+    src = ["package main", "", 'import (', '\t"bufio"', '\t"os"', '\t"unsafe"', ')', "", "var _ unsafe.Pointer", ""]
     src.append(PANIC_PROG)
     src += bf
     src += lf
